@@ -379,11 +379,21 @@ def add_lemmas(reg):
                      ensures={'eq': 'c == (a + b - 1) // b'}, result='bool', returns='True', modifies=[]))
     reg.add(Contract(L + 'range_index', params=dict(I3), requires=['b > 0', '0 <= c', 'c < (a + b - 1) // b'],
                      ensures={'lt': 'c * b < a', 'mult': '(c * b) % b == 0'}, result='bool', returns='True', modifies=[]))
+    reg.add(Contract(L + 'isqrt_unique', params=dict(I3),
+                     requires=['b >= 0', 'b * b <= a', 'a < (b + 1) * (b + 1)', 'c >= 0', 'c * c <= a', 'a < (c + 1) * (c + 1)'],
+                     ensures={'eq': 'b == c'}, result='bool', returns='True', modifies=[]))
+    reg.add(Contract(L + 'mul_divisible', params=dict(I3), requires=['c > 0', 'a % c == 0'], ensures={'div': '(a * b) % c == 0'},
+                     lemmas={'exit': {'k': 'a == (a // c) * c', 'prod': 'a * b == ((a // c) * b) * c',
+                                      'mult': '(((a // c) * b) * c) % c == 0'}},
+                     result='bool', returns='True', modifies=[]))
+    reg.add(Contract(L + 'div_exact', params={'a': 'int', 'b': 'int'}, requires=['b > 0', 'a % b == 0'],
+                     ensures={'abs': 'abs(a // b) == abs(a) // b'}, result='bool', returns='True', modifies=[]))
     return reg
 
 
 LEMMA_TARGETS = ['spec.integer.lemma_radix_lt', 'spec.integer.lemma_radix_ge', 'spec.integer.lemma_ceil_unique',
-                 'spec.integer.lemma_range_index']
+                 'spec.integer.lemma_range_index', 'spec.integer.lemma_isqrt_unique',
+                 'spec.integer.lemma_mul_divisible', 'spec.integer.lemma_div_exact']
 
 
 def lemma_units(prop, prefix, registry):
